@@ -201,4 +201,38 @@ PROPS["C07"] = dict(
     design_ref="6 C07",
 )
 
+PROPS["C01"] = dict(
+    title="Ordered-map equivalence under background maintenance",
+    modules=["FjallModel.Props.C01"],
+    theorems=["Fjall.Mvcc.c01_refines_map", "Fjall.Mvcc.c01_get_scan_agree", "Fjall.Mvcc.c01_maintenance_invisible",
+              "Fjall.Mvcc.c01_invariant_reachable"],
+    statements={
+        "c01_refines_map": "forall programs over any number of keyspaces (insert, remove, batch, clear, ingest) with rotate / flush(any watermark) / "
+                           "compact(any contiguous segment, any watermark, tombstone eviction at the last run) anywhere: every read output "
+                           "(get, contains, size_of, range scans, len, is_empty, first, last) = output of a plain sorted map per keyspace with maintenance erased",
+        "c01_get_scan_agree": "in every reachable state (k,v) is in the scan iff get k = some v",
+        "c01_maintenance_invisible": "rotate, flush w, compact i n w never change absGet, for any tree satisfying the invariant",
+        "c01_invariant_reachable": "Ordered (lookup order = seqno order) and Distinct hold in every reachable state",
+    },
+    engines=[dict(bin="kv", cases_quick=640, cases_thorough=20000, profiles=["release"], profiles_thorough=["release", "dev"])],
+    rule="case = program of 20-70 (thorough: 200) ops over 1-3 keyspaces x configurations {standard | blob-separated (threshold 64 B)} x "
+         "{default | 1 KB memtable}; writes: insert, remove, multi-keyspace batch, clear, sorted bulk ingestion with tombstones; maintenance as a "
+         "controlled input with 0 worker threads: rotate_memtable, one queued worker message at a time (flush / compact / rotate) through the "
+         "verif_worker_step hook, major_compact, journal rotation; reads: get, contains_key, size_of, range with every bound kind (forward, "
+         "reverse, consumed from both ends), prefix incl. empty and 0xFF prefixes, len, is_empty, first/last; each output compared with the Lean "
+         "model and a BTreeMap; final dumps three ways + point reads of every key. non-trivial = an overwritten/removed key is read (or a scan "
+         "runs) after a maintenance step that followed the overwrite; distinct = hash of the op trace",
+    trusted_base=["lsm-tree's tables, blocks, filters, blob files, merge iterator and compaction strategies are modelled as 'runs of versioned entries' "
+                  "(first-hit point reads, newest-visible scans, CompactionStream GC rule) and exercised, not verified",
+                  "strategy-chosen compactions are not mirrored structurally in the model run (every segment choice is proved invisible)",
+                  "remove_weak (documented as undefined after an overwrite) and FIFO compaction with overlapping runs (lsm-tree asserts disjoint L0) are outside"],
+    assumptions=["single thread; a batch / an ingestion names each key of a keyspace at most once"],
+    level_text="Lean 4 refinement theorem over all programs, maintenance placements, segments and watermarks (forward simulation to a sorted map; "
+               "invariant: lookup order = seqno order), tied to the real crate by running the same program on both with every background step made "
+               "a deterministic input",
+    level_note="trusted: Lean kernel; harness; lsm-tree internals as modelled; OS scheduling of real worker threads is covered by C14's stage",
+    technique="Lean 4 proof (inductive invariant + forward simulation; compaction-stream GC characterised as a filter) + differential correspondence",
+    design_ref="6 C01",
+)
+
 ALL_IDS = [f"C{i:02d}" for i in range(1, 19)]
